@@ -60,9 +60,9 @@ theorem lookup_eq (hw : StrictWeak lt) {l : List α} (hs : Sorted lt l) (k : α)
     static_set and flat_set): for a key of another type compared through `h.ek` / `h.ke`, consistent with the set's
     order (`HetOk`), every member returns the answer [associative.reqmts] prescribes for `kl` / `ku` / `ke` -/
 theorem hlookup_eq {h : Het α κ} (hh : HetOk lt h) {l : List α} (hs : Sorted lt l) (k : κ) (w : Lk) :
-    lookupP (fun x => h.ek x k) (fun x => h.ke k x) l w
-      = .ok (Spec.lookupP (fun x => h.ek x k) (fun x => h.ke k x) l w) :=
-  lookupP_eq (parted_het hh hs k) w
+    hlookupP (fun x => h.ek x k) (fun x => h.ke k x) l w
+      = .ok (Spec.hlookupP (fun x => h.ek x k) (fun x => h.ke k x) l w) :=
+  hlookupP_eq (parted_het hh hs k) w
 
 /-- the homogeneous comparison is a consistent heterogeneous one -/
 theorem hetOk_hom (hw : StrictWeak lt) : HetOk lt ({ ek := lt, ke := lt } : Het α α) :=
@@ -690,5 +690,35 @@ example : xvalidHist false (fun a b : Nat => decide (a < b)) ({ ek := fun x k =>
 example : xopsOk Kind.fs ([.base (.insert 4), .cmp, .eraseIf (fun v => v == 7), .sizes, .base .extract] : List (XOp Nat Nat)) = true := by
   decide
 example : opsOk Kind.fs ([.insert 4, .swap, .replace [0, 7], .insertHint 1 3, .extract] : List (Op Nat Nat)) = true := by decide
+
+/-- The band key `{k, k+1}` of the harness (`het=2`, a heterogeneous key equivalent to up to two elements) is consistent
+    with the order of `less` / `less<>` … -/
+theorem bandOf_ok_less : HetOk (fun a b : Nat => decide (a < b)) (bandOf (fun a b : Nat => decide (a < b))) := by
+  constructor
+  · intro k a b hab hb
+    simp only [bandOf, Bool.and_eq_true, decide_eq_true_eq] at *
+    omega
+  · intro k a b hab ha
+    simp only [bandOf, Bool.and_eq_true, decide_eq_true_eq] at *
+    omega
+  · intro k a h
+    simp only [bandOf, Bool.and_eq_true, Bool.and_eq_false_iff, decide_eq_true_eq, decide_eq_false_iff_not] at *
+    omega
+
+/-- … and of `greater` / `greater<>`, so every `HetOk` lookup theorem above applies to the band-key lines of the run. -/
+theorem bandOf_ok_greater : HetOk (fun a b : Nat => decide (a > b)) (bandOf (fun a b : Nat => decide (a > b))) := by
+  constructor
+  · intro k a b hab hb
+    simp only [bandOf, Bool.and_eq_true, decide_eq_true_eq, gt_iff_lt] at *
+    omega
+  · intro k a b hab ha
+    simp only [bandOf, Bool.and_eq_true, decide_eq_true_eq, gt_iff_lt] at *
+    omega
+  · intro k a h
+    simp only [bandOf, Bool.and_eq_true, Bool.and_eq_false_iff, decide_eq_true_eq, decide_eq_false_iff_not, gt_iff_lt] at *
+    omega
+
+/-- the band key really is equivalent to two elements of a set: neither before nor after 3 and 4 -/
+example : let h := bandOf (fun a b : Nat => decide (a < b)); (h.ek 3 3 = false ∧ h.ke 3 3 = false) ∧ (h.ek 4 3 = false ∧ h.ke 3 4 = false) := by decide
 
 end Tetl.C09.Props
